@@ -135,6 +135,9 @@ M = [
     ("cli_fix_homozygous_not_forwarded", "C15", "mchap/application/assemble.py",
      "                        fix_homozygous=self.mcmc_fix_homozygous,\n", "",
      "--mcmc-fix-homozygous never reaches the sampler"),
+    ("cli_pedigree_error_columns_swapped", "C18", "mchap/application/call_pedigree.py",
+     "            gamete_error[i] = self.gamete_error[s]\n", "            gamete_error[i] = self.gamete_error[s][::-1]\n",
+     "call-pedigree hands the two parents' error terms to the sampler in swapped order"),
     ("handles_cached_across_fork", "C08", "mchap/application/baseclass.py",
      "                    with pysam.AlignmentFile(\n                        path, reference_filename=self.ref\n                    ) as alignment_file:\n",
      "                    _hc = globals().setdefault('_HANDLE_CACHE', {})\n                    if path not in _hc:\n                        _hc[path] = pysam.AlignmentFile(path, reference_filename=self.ref)\n                    if True:\n                        alignment_file = _hc[path]\n",
